@@ -32,7 +32,7 @@ def interval(c, t):
 
 
 # ------------------------------------------------------------------------------------------------ C09
-@REG.contract("dpapi_ng._client._get_protection_gke_from_cache", props=["C09"])
+@REG.contract("dpapi_ng._client._get_protection_gke_from_cache", props=["C09", "C01"])
 def get_protection_gke_from_cache(c):
     I = c.I
     rkid = c.param("root_key_identifier", T.opt(T.UUID))
@@ -73,6 +73,22 @@ def get_protection_gke_from_cache(c):
         return [Z(f["l0"]) == w0, Z(f["l1"]) == w1, Z(f["l2"]) == w2, Z(f["l1"]) >= 0, Z(f["l1"]) <= 31, Z(f["l2"]) >= 0, Z(f["l2"]) <= 31]
 
     c.ensures("envelope-names-current-interval", post_env)
+
+    def post_key(r):
+        # C01: the L2 key handed to the encryption side is the TRUE chain value for the named interval
+        if r is None:
+            return True
+        got = [d for k, d in c.ctx.trace if k == "cache_get"]
+        if len(got) != 1 or got[0]["result"] is None:
+            return False
+        e = got[0]["result"]
+        f = r.fields
+        g_t = R.to_term(c.ctx, rkid.rope)
+        want = L2K(HASHOBJ(e.ghost["hash_name"].term), e.ghost["base"], g_t, Z(f["l0"]), Z(f["l1"]), Z(f["l2"]))
+        return [c.eq(f["l2_key"], atom(want)), c.mod(f["flags"], 2) == c.mod(e.fields["flags"], 2), c.eq(f["root_key_identifier"], rkid),
+                c.eq(f["kdf_parameters"], e.fields["kdf_parameters"]), c.eq(f["kdf_algorithm"], e.fields["kdf_algorithm"])]
+
+    c.ensures("l2-key-is-the-chain-value-of-the-named-interval", post_key)
     c.ensures("none-without-root-key-id", lambda r: True if rkid is not None else r is None)
     c.raises("ValueError", when=None)
     c.raises("NotImplementedError", when=None)
